@@ -14,7 +14,19 @@
      obs <pspec> <fspec> <kind> <flavour> <caller_nogil> <body> <pending>
      doc <fspec> <kind> <body> <pending> <caller_nogil>
      compat <self spec> <other spec>
-     wf <spec> <kind> *)
+     wf <spec> <kind>
+   value level (M_ExcTest):
+   ity     <w>:<0|1>            ; "-" = no cast
+   expr    prefix tokens joined by ',':  dec:<n>:<suf> | hex:<n>:<suf> | int:<v> | neg E | add E E | sub E E |
+           mul E E | cast:<w>:<sg> E      (suf: n l u ul)
+     ceval <expr>                                 -> <w>:<sg>:<v> | UNDEF
+     emit <ity|-> <expr>                          -> expr tokens of (emitted tc e)
+     vtest <rt> <ity|-> <expr> <r,r,...>          -> one of 0/1/? per r   (eq_test rt r (emitted tc e))
+     vstored <rt> <expr>                          -> v | UNDEF
+     vspec <ity|-> <rt> <expr> <chk>              -> site spec | UNDEF
+     vobs <ity|-> <rt> <expr> <chk> <flavour> <caller_nogil> <body> <pending>
+     ftest <macro 0|1> <32|64|-> <c> <r,r,...>    (C99 hex floats / nan / inf)
+     fstored <32|64> <c> *)
 let sp c s = String.split_on_char c s
 
 let kind_of s = match sp ':' s with
@@ -109,6 +121,40 @@ let string_of_obs o =
 
 let st0 pend caller_nogil = { pending = pending_of pend; unraisable = []; gil = not (bool_of_string caller_nogil); viol = O }
 
+let ity_of s = match sp ':' s with
+  | [w; sg] -> { iw = z_of_string w; isg = bool_of_string sg }
+  | _ -> failwith ("ity " ^ s)
+let ity_opt s = if s = "-" then None else Some (ity_of s)
+let suf_of = function "n" -> SufNone | "l" -> SufL | "u" -> SufU | "ul" -> SufUL | s -> failwith ("suf " ^ s)
+let string_of_suf = function SufNone -> "n" | SufL -> "l" | SufU -> "u" | SufUL -> "ul"
+let expr_of s =
+  let rec go = function
+    | [] -> failwith "expr: empty"
+    | t :: rest ->
+      (match sp ':' t with
+       | ["dec"; n; su] -> (CDec (z_of_string n, suf_of su), rest)
+       | ["hex"; n; su] -> (CHex (z_of_string n, suf_of su), rest)
+       | ["int"; v] -> (CInt (z_of_string v), rest)
+       | ["neg"] -> let (a, r) = go rest in (CNeg a, r)
+       | ["add"] -> let (a, r) = go rest in let (b, r2) = go r in (CAdd (a, b), r2)
+       | ["sub"] -> let (a, r) = go rest in let (b, r2) = go r in (CSub (a, b), r2)
+       | ["mul"] -> let (a, r) = go rest in let (b, r2) = go r in (CMul (a, b), r2)
+       | ["cast"; w; sg] -> let (a, r) = go rest in (CCast ({ iw = z_of_string w; isg = bool_of_string sg }, a), r)
+       | _ -> failwith ("expr token " ^ t)) in
+  match go (sp ',' s) with (e, []) -> e | _ -> failwith "expr: trailing tokens"
+let rec string_of_expr = function
+  | CDec (n, su) -> "dec:" ^ string_of_z n ^ ":" ^ string_of_suf su
+  | CHex (n, su) -> "hex:" ^ string_of_z n ^ ":" ^ string_of_suf su
+  | CInt v -> "int:" ^ string_of_z v
+  | CNeg a -> "neg," ^ string_of_expr a
+  | CAdd (a, b) -> "add," ^ string_of_expr a ^ "," ^ string_of_expr b
+  | CSub (a, b) -> "sub," ^ string_of_expr a ^ "," ^ string_of_expr b
+  | CMul (a, b) -> "mul," ^ string_of_expr a ^ "," ^ string_of_expr b
+  | CCast (t, a) -> "cast:" ^ string_of_z t.iw ^ ":" ^ string_of_bool t.isg ^ "," ^ string_of_expr a
+let fty_opt = function "-" -> None | "32" -> Some F32 | "64" -> Some F64 | s -> failwith ("fty " ^ s)
+let to_f32 (x : float) : float = Int32.float_of_bits (Int32.bits_of_float x)
+let feq (a : float) (b : float) : bool = (a = b)
+
 let handle = function
   | ["norm"; f; k; c] ->
       (match normalise (flags_of f) (kind_of k) (clause_of c) with None -> "ERR" | Some s -> string_of_spec s)
@@ -121,6 +167,33 @@ let handle = function
   | ["wf"; s; k] -> string_of_bool (wf_specb (spec_of s) (kind_of k))
   | ["ctest"; k; s; r] ->
       (match sent_of s with Some se -> string_of_bool (c_test (kind_of k) se (cval_of r)) | None -> "!ERR nosent")
+  | ["ceval"; e] ->
+      (match ceval (expr_of e) with
+       | Some (t, v) -> string_of_z t.iw ^ ":" ^ string_of_bool t.isg ^ ":" ^ string_of_z v
+       | None -> "UNDEF")
+  | ["emit"; tc; e] -> string_of_expr (emitted (ity_opt tc) (expr_of e))
+  | ["vtest"; rt; tc; e; rs] ->
+      let rt = ity_of rt and tc = ity_opt tc and e = expr_of e in
+      String.concat "" (List.map (fun r ->
+        match eq_test rt (z_of_string r) (emitted tc e) with Some true -> "1" | Some false -> "0" | None -> "?")
+        (sp ',' rs))
+  | ["vstored"; rt; e] ->
+      (match stored (ity_of rt) (expr_of e) with Some v -> string_of_z v | None -> "UNDEF")
+  | ["vspec"; tc; rt; e; ck] ->
+      (match site_spec (ity_opt tc) (ity_of rt) (expr_of e) (chk_of ck) with
+       | Some s -> string_of_spec s | None -> "UNDEF")
+  | ["vobs"; tc; rt; e; ck; fl; cn; b; pend] ->
+      (match observe_value (ity_opt tc) (ity_of rt) (expr_of e) (chk_of ck) (flavour_of fl) (bool_of_string cn)
+               (body_of b) (st0 pend cn) with
+       | Some o -> string_of_obs o | None -> "UNDEF")
+  | ["ftest"; m; tc; c; rs] ->
+      let c = float_of_string c in
+      String.concat "" (List.map (fun r ->
+        string_of_bool (float_test feq to_f32 (bool_of_string m) (fty_opt tc) c (float_of_string r))) (sp ',' rs))
+  | ["fstored"; rt; c] ->
+      (match fty_opt rt with
+       | Some t -> Printf.sprintf "%h" (float_stored to_f32 t (float_of_string c))
+       | None -> "!ERR fty")
   | _ -> "!ERR badcmd"
 
 let () = main_loop handle
